@@ -17,6 +17,11 @@ pub mod c18_reduce;
 pub mod c03_conflict;
 pub mod hashmodel;
 pub mod c05_commit;
+pub mod c08_ingress;
+pub mod c12_walrec;
+pub mod c14_guard;
+pub mod c01_merge;
+pub mod c05_patch;
 
 #[cfg(not(kani))]
 include!(concat!(env!("OUT_DIR"), "/registry.rs"));
